@@ -38,7 +38,7 @@ def gen_cases(rng, tier):
 		cuts = streams.fragmentations(rng, s, n_random=4 if tier == 'thorough' else 2)
 		cases.append({'k': 'frag', 'kind': kind, 's': s.hex(), 'cuts': cuts})
 	# every two-call fragmentation of pipelines with bodies (a later part of a body arriving together with the next message etc.)
-	for i in range(400 if tier == 'thorough' else 40):
+	for i in range(400 if tier == 'thorough' else 24):
 		kind = 'server' if rng.random() < .5 else 'client'
 		gts, sers = streams.gen_wf(rng, kind, n=rng.randint(2, 3))
 		s = b''.join(sers)
@@ -46,7 +46,7 @@ def gen_cases(rng, tier):
 			s = streams.mutate(rng, s, 1)
 		if len(s) > 500:
 			s = s[:500]
-		cases.append({'k': 'frag', 'kind': kind, 's': s.hex(), 'cuts': [[], list(range(1, len(s)))] + streams.single_cuts(s, None if tier == 'thorough' else 160)})
+		cases.append({'k': 'frag', 'kind': kind, 's': s.hex(), 'cuts': [[], list(range(1, len(s)))] + streams.single_cuts(s, None if tier == 'thorough' else 120)})
 	if tier == 'thorough':
 		# all 2^(n-1) fragmentations of short streams over a message-skeleton alphabet
 		skel = [b'GET / HTTP/1.1\r\n', b'Host:x\r\n', b'\r\n', b'A:b\r\n', b'Content-Length:2\r\n', b'ab', b'Transfer-Encoding:chunked\r\n', b'1\r\nz\r\n', b'0\r\n\r\n', b'HTTP/1.1 200 OK\r\n', b'\r', b'\n', b' c\r\n']
